@@ -258,9 +258,19 @@ class BTSCameraData:
         VEC3D.bwrite(file, self.translation_vector)  # translation_vector
         VEC2D.bwrite(file, self.focus)  # focus
         VEC2D.bwrite(file, self.optical_center)  # optical_center
-        f64.bwrite(file, self.x_distortion_coefficients)  # x_distortion_coefficients
-        f64.bwrite(file, self.y_distortion_coefficients)  # y_distortion_coefficients
+        f64.bwrite(
+            file, self._padded(self.x_distortion_coefficients)
+        )  # x_distortion_coefficients
+        f64.bwrite(
+            file, self._padded(self.y_distortion_coefficients)
+        )  # y_distortion_coefficients
         self.view_port.bwrite(file)  # view_port
+
+    def _padded(self, coefficients) -> np.ndarray:
+        "The record always stores max_distorsion_coefficients values: pad with zeros"
+        padded = np.zeros(self.max_distorsion_coefficients, dtype=f64.btype)
+        padded[: len(coefficients)] = coefficients
+        return padded
 
     @property
     def nBytes(self) -> int:
